@@ -137,6 +137,16 @@ def plan(tier, verif_seed):
     for j in range(400 if tier == "quick" else 4000):
         yield {"i": i, "mode": "choreo", "seed": derive_seed(verif_seed, PROPERTY, "choreo", j), "keep_sample": j == 0}
         i += 1
+    # 3c. complete OVERTAKING sweep: the request that runs first is overtaken at every one of its scheduling points by the
+    #     other one, which then runs to completion (with its worker threads) before the first continues
+    over = [("run_steps", "run_step"), ("stream", "run_step"), ("run_step", "run_steps")] if tier == "quick" else \
+        [(a, b) for a in ["run_step", "run_steps", "stream", "stream_disc", "run_steps_exc"] for b in ["run_step", "run_steps", "stream", "stream_disc", "run_steps_exc"]]
+    for a, b in over:
+        spec0 = {"i": i, "mode": "directed", "kinds": [a, b], "seed": derive_seed(verif_seed, PROPERTY, "overtake", a, b)}
+        r0 = execute(generate(spec0))
+        for k in range(r0.extra.get("first_point", 0), r0.points):
+            yield {"i": i, "mode": "overtake", "kinds": [a, b], "seed": spec0["seed"], "k": k}
+            i += 1
     if tier != "thorough":
         return
     # 4. complete single-pre-emption sweep for every ordered pair of the five basic kinds
@@ -253,6 +263,8 @@ def generate(spec):
     mode = spec["mode"]
     if mode == "directed":
         sched = {"kind": "default"}
+    elif mode == "overtake":
+        sched = {"kind": "overtake", "k": spec["k"], "to": 1}
     elif mode == "sweep":
         # driver=0, clients are tasks 1..n in start order; by default the LAST client runs first
         # (depth-first), the single pre-emption hands the baton to the first one
